@@ -11,7 +11,7 @@
    commodity the price is expressed in); the priced commodity is the other end of the
    edge.  The graph is the list of its edges in creation order (boost adjacency_list
    with vecS: edge and adjacency iteration follow creation order). *)
-From LedgerV Require Import Base.Prelude.
+From LedgerV Require Import Base.Prelude Gen.PriceMemo.
 Local Open Scope Z_scope.
 
 Definition comm := str.
@@ -316,7 +316,10 @@ Definition prices_report (l : list item) (posted : list comm) (D : Z) : list (Z 
 
 (* ---- commodity_t::find_price memoisation (commodity.cc:118-187) ----
    Every base commodity owns a memo keyed by (moment, target); commodity_t::add_price and
-   remove_price clear the memo of EVERY commodity of the pool (commodity.cc:62-66, 75-78). *)
+   remove_price clear the memo of EVERY commodity of the pool (commodity.cc:62-66, 75-78):
+   that fact is re-read from the source on every run (Gen/PriceMemo.v, written by
+   harness/translators/c10_memo_clear.py); were it to read `false` the memo would survive a
+   recorded price here, and the transparency lemmas of Proofs/PricesProofs.v stop checking. *)
 Definition memo_key := (Z * comm)%type.
 Definition memo := list (comm * memo_key * option price).   (* owner, key, remembered answer *)
 
@@ -331,7 +334,8 @@ Fixpoint memo_find (m : memo) (owner : comm) (k : memo_key) : option (option pri
 Record pstate : Type := mkState { st_graph : graph; st_memo : memo }.
 
 Definition st_add (s : pstate) (e : entry) : pstate :=
-  mkState (add_entry (st_graph s) e) [].
+  mkState (add_entry (st_graph s) e)
+          (if add_price_clears_every_memo then [] else st_memo s).
 
 Definition st_find (s : pstate) (src tgt : comm) (D : Z) : option price * pstate :=
   if comm_eqb src tgt then (None, s)
